@@ -11,7 +11,8 @@ def h64(obj):
 
 
 class Recorder(object):
-    MAX_VIOL = 40
+    MAX_VIOL = 400
+    MAX_PER_MECH = 12
     MAX_SAMPLES = 12
     MAX_DISTINCT = 400000
 
@@ -23,6 +24,8 @@ class Recorder(object):
         self.samples = []
         self.violations = []
         self.n_violations = 0
+        self._per_mech = {}
+        self.dropped_mechs = {}
         self.monitors = {}
         self.inconclusive = []
         self.notes = {}
@@ -62,9 +65,15 @@ class Recorder(object):
 
     # -- verdict material
     def violation(self, case, msg, mech=None):
+        # keep a bounded number of witnesses *per mechanism* so that many witnesses of one
+        # (possibly known) mechanism can never crowd out a different one
         self.n_violations += 1
-        if len(self.violations) < self.MAX_VIOL:
+        k = str(mech)
+        self._per_mech[k] = self._per_mech.get(k, 0) + 1
+        if self._per_mech[k] <= self.MAX_PER_MECH and len(self.violations) < self.MAX_VIOL:
             self.violations.append({'case': case, 'msg': str(msg)[:2000], 'mech': mech})
+        elif self._per_mech[k] > self.MAX_PER_MECH:
+            self.dropped_mechs[k] = self.dropped_mechs.get(k, 0) + 1
 
     def inconclusive_case(self, why):
         if len(self.inconclusive) < 20:
@@ -80,6 +89,7 @@ class Recorder(object):
             'samples': self.samples,
             'violations': self.violations,
             'n_violations': self.n_violations,
+            'dropped_mechs': self.dropped_mechs,
             'monitors': self.monitors,
             'inconclusive': self.inconclusive,
             'notes': self.notes,
